@@ -40,6 +40,20 @@ ItemsBytes(dir, items) == Concat([i \in 1..Len(items) |-> ItemBytes(dir, items[i
 AllCmds(items) == \A i \in 1..Len(items) : items[i].t = "cmd"
 AnyCmd(items) == \E i \in 1..Len(items) : items[i].t = "cmd"
 
+\* items (as decoded by a receiver) carry exactly the command stream `bytes`: framing by the
+\* specification's payload sizes, typed payloads equal the specification's decoding (RFU ignored)
+ItemCarries(dir, it, c) ==
+  /\ it.t = "cmd" /\ it.cid = c.cid
+  /\ IF Has(it, "raw") THEN it.raw = c.raw
+     ELSE IF it.p = <<>> THEN c.raw = <<>>
+     ELSE /\ HasPayload(dir, it.cid) /\ Len(c.raw) = Size(dir, it.cid)
+          /\ LET exp == DecodeLayout(Layout(dir, it.cid), c.raw) IN
+               it.p[1] = (IF dir = "down" /\ it.cid = 13 THEN [Time |-> FieldsToDur(exp)] ELSE exp)
+StreamDecodable(dir, bytes) == DecodeStreamRaw(<<>>, dir, bytes).ok
+ItemsCarry(dir, items, bytes) ==
+  LET d == DecodeStreamRaw(<<>>, dir, bytes) IN
+  d.ok /\ Len(items) = Len(d.cmds) /\ \A i \in 1..Len(items) : ItemCarries(dir, items[i], d.cmds[i])
+
 \* ---- CFList (LoRaWAN 1.1 sec. 6.2.3 / Regional Parameters: type 0 = five 24-bit frequencies in
 \*      100 Hz units, type 1 = up to six 16-bit channel masks + RFU) ------------------------------
 CFListRepresentable(cf) ==
